@@ -5,7 +5,11 @@ distribution, wavefunction, exact expectation) is judged by a post-condition
 hook that compares request validity, the delivered results, the executions
 logged by the runner itself and the movement of the two public counters with an
 executable model (rv.ref.counters).  The driver additionally replays the whole
-client-side call log through the model (history-level check).
+client-side call log through the model (history-level check).  Results are
+judged for their shot count, for the length of every bitstring and for every
+bit that the circuit determines (rv.gen.wide.partial_outcome); the class
+``wide`` takes registers across one byte, one 16-bit word, 32 and 64 bits and
+sample counts across 2**n_qubits, 2**15 and 2**16.
 """
 import json
 import os
@@ -14,6 +18,7 @@ import tempfile
 
 from ..gen import families as F
 from ..gen import runners as G
+from ..gen import wide as W
 from ..ref import counters as M
 from ..ref import stats as S
 
@@ -27,7 +32,7 @@ RULE = (
     "empty batches) and occasional device failures, on: a minimal BaseCircuitRunner subclass (n or n+3 "
     "shots), SymbolicSimulator, a simulator with a partial native gate set (6 sets), a simulator with the "
     "default predicate, and a MeasurementTrackingBackend around each (calls alternate between the tracker "
-    "and the shared wrapped runner); circuits on 0-5 qubits incl. operation-free and idle-qubit ones; a "
+    "and the shared wrapped runner); circuits on 0-5 qubits incl. operation-free and idle-qubit ones (class wide: 8-130 qubits, below); a "
     "history is non-trivial when a rejected call lies between two successful ones; distinct = distinct "
     "canonical history strings; classes fresh / tracker_fresh: the same histories on a random rig, but over a "
     "family of 4-8 near-identical circuits (each one mutation away from an earlier member: one parameter "
@@ -39,7 +44,23 @@ RULE = (
     "in a batch is the same object or two equal ones), so that addresses of dead circuits are reused by "
     "different live ones (tallied) and every coarse view of a circuit has a collision inside one history; after one "
     "accepted call in four of these classes the same request is issued again with each circuit replaced by a relative "
-    "(parent / child in the family) - as the same kind of call, as a distribution request, or as a batch [c, c', c]"
+    "(parent / child in the family) - as the same kind of call, as a distribution request, or as a batch [c, c', c]; "
+    "class wide (rv.gen.wide): shorter histories of the same kinds of calls (10-30 planned, cut where their estimated cost "
+    "reaches 0.9 s quick / 2.5 s thorough; optionally through a tracker) over circuits on WIDE registers - the case index "
+    "walks through a table of 16 (runner, width) slots so that every quick run has each of them about four times: "
+    "SymbolicSimulator on 8 / 9 / 10 qubits, the partial-native and default-predicate simulators on 9 / 10, a simulator "
+    "whose native execution contracts gate tensors (LeanSim, every operation native; the base class validates, counts and "
+    "samples) on 8 .. 13, 15, 16 and 17 qubits, the base-class runner on 9 .. 130 qubits (16, 17, 32, 33, 63, 64, 65, "
+    "100, 128 among them); per case an operation-free wide circuit, a 'tall' one (X on the last qubit and on one of the "
+    "first eight, further X / CNOT / SWAP / diagonal gates; register spelled out or left to be inferred from the highest "
+    "qubit touched), an 'idle' one (operations on the first 1-4 qubits, width by n_qubits= alone, also one qubit to "
+    "either side of the case's width and 8 / 9), one of these with 1-2 rotations (RX / RY / H) added, a narrow circuit "
+    "(1-5 qubits) and a tall neighbour of width +-1; accepted sample counts are 1 .. 40, or moved to 2**n_qubits + "
+    "{-1, 0, 1, 2, 17}, 2 * 2**n_qubits (+1) (registers up to 13 qubits quick / 16 thorough on LeanSim, 10 on the other "
+    "simulators), to 41 .. 50000 (powers of two +-1 among them; up to 10 qubits) and to 65535 .. 131073 (up to 6 qubits); "
+    "a wide case is non-trivial when an accepted sampling request reaches a register of >= 9 qubits; every returned "
+    "bitstring / distribution key is judged for length AND for the bits that no rotation can reach (all of them for "
+    "X / CNOT / SWAP / diagonal circuits), in every class"
 )
 ASSUMPTIONS = [
     "sample counts are Python ints or lists/tuples of Python ints (numpy integers are not ints for the library's own isinstance test and are outside the workload)",
@@ -48,19 +69,21 @@ ASSUMPTIONS = [
     "for the tracker only monotone counters, no movement on a rejected call and +1/+1 for a single run (inherited base-class path) are demanded; the growth on a successful batch is not specified by the property",
     "a valid request on which the harness runner itself fails (DeviceFailure) must count only the circuits that completed",
     "a record's serialised circuit is compared with the library's to_dict of the circuit that was passed and, independently of the serialiser, read field by field (n_qubits, gate names, qubit indices, parameters parsed as floats: exactly for Python numbers, to 1e-9 relative otherwise)",
+    "wide registers: the library applies a gate by building its 2**n x 2**n matrix (GateOperation.apply -> lifted_matrix; a two-qubit gate also multiplies 2**span matrices), i.e. 16 MiB per gate at 10 qubits, 256 MiB at 12 and 64 GiB at 16 - SymbolicSimulator and the harness simulators that use operation.apply are therefore driven on at most 10 qubits (two-qubit gates at most 6 apart); 11 .. 17 qubits reach the base class's validation, counters and sampler through LeanSim, a BaseWavefunctionSimulator subclass whose only own method contracts each gate's own matrix with the state tensor (compared with operation.apply on a 4-qubit probe when the class is built; if they ever disagree it falls back to operation.apply, widths are capped at 10 and the evidence says so); registers of 2**18 and more amplitudes are in no tier (one sampling call on 17 qubits already costs 0.25 s); get_exact_expectation_values is not called beyond 10 qubits",
+    "determined bits: a qubit that only X / Y / CNOT-with-determined-control / SWAP / diagonal operations (Z S T I CZ RZ PHASE MultiPhase) have touched is in a basis state and in a product with the rest, so its measured bit is fixed whatever rotations act elsewhere; RX / RY / H open their qubit, a CNOT with an open control opens its target (rv.gen.wide.partial_outcome; nothing is claimed about open bits)",
     "run_batch_and_measure([], n<=0) is treated as an invalid request (the sample count is non-positive); set EMPTY_BATCH_NONPOSITIVE_IS_INVALID = False to exclude that corner",
 ]
 DECIDING = [
     "run_and_measure", "run_batch_and_measure", "distribution", "get_wavefunction", "exact_expectation",
     "tracker.single", "tracker.batch", "tracker.distribution", "history-counters", "history-counters-tracker",
-    "history-outcome",
+    "history-outcome", "wide-register-result",
 ]
 BRANCHES = [
     "base.run_and_measure:reject", "base.run_batch_and_measure:reject_length",
     "base.run_batch_and_measure:reject_entry", "sim.run_and_measure:reject",
     "sim.get_wavefunction:native", "sim.get_wavefunction:nonnative",
 ]
-BUDGET = {"quick": (4, 24, 140), "thorough": (16, 200, 100000)}
+BUDGET = {"quick": (4, 26, 160), "thorough": (16, 200, 100000)}
 CASE_TIMEOUT = {"quick": 30, "thorough": 60}
 
 EMPTY_BATCH_NONPOSITIVE_IS_INVALID = True
@@ -70,7 +93,7 @@ _TMP = None
 
 def classes(tier):
     return ["echo", "symbolic", "partial", "default_pred", "tracker_echo", "tracker_symbolic", "tracker_partial",
-            "tracker_fresh", "fresh"]
+            "tracker_fresh", "fresh", "wide"]
 
 
 # ----------------------------------------------------------------------------- helpers for the monitors
@@ -91,11 +114,19 @@ def _kind(r):
     """'tracker' | 'sim' | 'echo' | 'other'"""
     if _is_tracker(r):
         return "tracker"
-    if G.native_of(r) is not None:
+    if _native_of(r) is not None:
         return "sim"
     if type(r).__name__ == "EchoRunner":
         return "echo"
     return "other"
+
+
+def _native_of(r):
+    """the native-flag rule of a runner under test (rv.gen.runners.native_of), incl. the lean simulator of the
+    wide-register class (every operation native)"""
+    if type(r).__name__ == "LeanSim":
+        return "all"
+    return G.native_of(r)
 
 
 def _counters(r):
@@ -113,7 +144,7 @@ def _spec_of(circuit):
 
 def _cdesc(circuit):
     try:
-        return G.spec_str(_spec_of(circuit))
+        return W.spec_str(_spec_of(circuit))
     except Exception:
         return repr(circuit)[:80]
 
@@ -200,7 +231,27 @@ def _shots_ok(mon, name, circuit, n, meas, label=""):
         if bad:
             mon.violation("bitstring-length", f"{name}{label}: bitstring {bad[0]!r} for the {nq}-qubit circuit {_cdesc(circuit)}")
             return False
+        if nq >= 9:
+            mon.note("register>=9-qubits:bitstring-length-judged")
     return True
+
+
+def _distinct(bitstrings):
+    try:
+        return set(bitstrings)
+    except TypeError:
+        return {tuple(b) for b in bitstrings}
+
+
+def _expected_bits(kind, spec):
+    """what the circuit's measurement is known to give without simulating it: the echo runner's pattern, or the
+    bits of a simulator's outcome that no rotation can reach (None where open; all of them for a classical circuit)"""
+    if kind == "echo":
+        return G.echo_pattern(spec)
+    if kind == "sim":
+        exp = W.partial_outcome(spec)
+        return exp if any(e is not None for e in exp) else None
+    return None
 
 
 def _content_ok(mon, name, r, circuit, meas, label=""):
@@ -209,27 +260,28 @@ def _content_ok(mon, name, r, circuit, meas, label=""):
     spec = _spec_of(circuit)
     if spec["n"] == 0:
         return True
-    kind = _kind(r)
-    exp = None
-    if kind == "echo":
-        exp = G.echo_pattern(spec)
-    elif kind == "sim":
-        exp = G.classical_outcome(spec)
+    exp = _expected_bits(_kind(r), spec)
     if exp is None:
         return True
-    bad = [tuple(b) for b in meas.bitstrings if tuple(int(x) for x in b) != exp]
-    if bad:
-        mon.violation("result-of-another-circuit",
-                      f"{name}{label}: outcome {bad[0]} from {_cdesc(circuit)} whose only possible outcome is {exp}")
-        return False
-    mon.note("deterministic-outcome-checked")
+    full = None not in exp
+    for b in _distinct(meas.bitstrings):
+        pos = W.disagreement(b, exp)
+        if pos is not None:
+            mon.violation("result-of-another-circuit",
+                          f"{name}{label}: outcome {tuple(b)} from {_cdesc(circuit)} "
+                          + (f"whose only possible outcome is {exp}" if full else
+                             f"whose bit #{pos} can only be {exp[pos]} (determined bits: {exp})"))
+            return False
+    mon.note("deterministic-outcome-checked" if full else "determined-bits-of-a-circuit-with-rotations-checked")
+    if spec["n"] >= 9:
+        mon.note("register>=9-qubits:outcome-bits-judged")
     return True
 
 
 def _sim_work(mon, name, r, pre, circuits, what):
     """counter movement and native executions of a simulator for one wavefunction
     computation per listed circuit"""
-    native = G.native_of(r)
+    native = _native_of(r)
     exp_c = exp_j = 0
     exp_native = []
     for c in circuits:
@@ -519,12 +571,15 @@ def _dist_shape_ok(mon, name, r, circuit, dist, what, exact):
         mon.violation("distribution-total", f"{name}: {what}: probabilities sum to {tot!r}")
         return False
     if nq >= 1:
-        spec = _spec_of(circuit)
-        kind = _kind(r)
-        exp = G.echo_pattern(spec) if kind == "echo" else (G.classical_outcome(spec) if kind == "sim" else None)
-        if exp is not None and abs(items.get(exp, 0.0) - 1) > 1e-9:
-            mon.violation("result-of-another-circuit", f"{name}: {what}: distribution {items} but the only possible outcome is {exp}")
-            return False
+        exp = _expected_bits(_kind(r), _spec_of(circuit))
+        if exp is not None:
+            off = {k: v for k, v in items.items() if W.disagreement(k, exp) is not None and v != 0}
+            if sum(off.values()) > 1e-9:
+                mon.violation("result-of-another-circuit",
+                              f"{name}: {what}: distribution gives {sorted(off.items())[:3]} but the outcome's determined bits are {exp}"[:700])
+                return False
+        if nq >= 9:
+            mon.note("register>=9-qubits:" + ("exact" if exact else "sampled") + "-distribution-judged")
     return True
 
 
@@ -882,6 +937,66 @@ def _with_neighbour_calls(rng, calls, how, sim):
     return out
 
 
+def _widen_counts(rng, calls, pool, rig, tracked_bits, quick):
+    """wide class: sample counts of accepted requests are moved to the size of the circuit's state space
+    (2**n_qubits -1, +0, +1, ..: the sampler changes regime there), to 41 .. 50000 (registers up to 10 qubits) and, for
+    circuits on up to 6 qubits, to 65535 .. 131073; the
+    history ends where its estimated cost reaches the case's allowance (rejected requests cost nothing)"""
+    allowance = 0.9 if quick else 2.5
+    many_up_to = {"echo": 16, "lean": 13 if quick else 16}.get(rig, 10)
+    spent = 0.0
+    large_left = 1 if tracked_bits else 2
+    out = []
+    for c in calls:
+        if c["expect"] in ("ok", "device-failure") and c["cidx"]:
+            if c["op"] in ("single", "dist") and c["n"] is not None and c["expect"] == "ok":
+                w = pool[c["cidx"][0]]["n"]
+                roll = rng.random()
+                if roll < 0.3 and w <= many_up_to:
+                    c["n"] = rng.choice(W.boundary_counts(w))
+                elif roll < 0.6 and w <= 6 and large_left:
+                    c["n"] = rng.choice(W.LARGE_COUNTS)
+                    large_left -= 1
+                elif roll < 0.75 and w <= 10:
+                    c["n"] = W.medium_count(rng)
+            elif c["op"] == "batch" and c["expect"] == "ok" and rng.random() < 0.4:
+                ns = [c["n"]] * len(c["cidx"]) if isinstance(c["n"], int) else list(c["n"])
+                for k, i in enumerate(c["cidx"]):
+                    w = pool[i]["n"]
+                    if rng.random() < 0.5 and w <= many_up_to:
+                        ns[k] = rng.choice(W.boundary_counts(w))
+                    elif rng.random() < 0.2 and w <= 10:
+                        ns[k] = W.medium_count(rng)
+                c["n"] = tuple(ns) if isinstance(c["n"], tuple) else ns
+            ns = c["n"] if isinstance(c["n"], (list, tuple)) else [c["n"]] * len(c["cidx"])
+            if c["op"] == "exact" and pool[c["cidx"][0]]["n"] > 10:
+                c["op"] = "wf"  # the expectation value of an operator is computed with the library's 4**n gate application
+            cost = sum(W.cost(rig, pool[i], n, tracked_bits and c["tgt"] == "T") for i, n in zip(c["cidx"], ns))
+            if out and spent + cost > allowance and any(x["expect"] == "ok" and x["op"] in ("single", "batch") and x["cidx"] for x in out):
+                continue  # too dear by now: left out (cheaper requests still follow)
+            spent += cost
+        out.append(c)
+    return out
+
+
+def _client_view(rig, spec, n, meas):
+    """wide class, judged from the caller's side with the circuit's spec (plain data): None when the returned
+    measurements have >= n shots, each as long as the register and agreeing with every determined bit, else a text"""
+    bs = list(meas.bitstrings)
+    if len(bs) < n:
+        return f"{len(bs)} shots for a request of {n}"
+    if spec["n"] == 0:
+        return None
+    exp = _expected_bits("echo" if rig == "echo" else "sim", spec)
+    for b in _distinct(bs):
+        if len(b) != spec["n"]:
+            return f"bitstring {tuple(b)} of length {len(b)} for a register of {spec['n']} qubits"
+        pos = W.disagreement(b, exp) if exp is not None else None
+        if pos is not None:
+            return f"bitstring {tuple(b)}: bit #{pos} can only be {exp[pos]} (determined bits: {exp})"
+    return None
+
+
 def _call_str(call):
     n = call["n"]
     ns = ("(" + ",".join(map(str, n)) + ")" if isinstance(n, tuple) else
@@ -951,6 +1066,13 @@ def run_case(ctx):
     fresh = base == "fresh"  # short-lived, near-identical circuits (see _fresh_pool)
     if fresh:
         base = rng.choice(["echo", "symbolic", "symbolic", "partial", "default_pred"])
+    wide = base == "wide"  # registers of 8 .. 17 (simulators) / 9 .. 130 (base runner) qubits, see rv.gen.wide
+    if wide:
+        base, width = W.slot(ctx.index, rng)
+        tracked = rng.random() < 0.3
+        if base == "lean" and not W.lean_class().contraction_agrees:
+            width = min(width, 10)
+            ctx.mon.note("wide:lean-simulator-fell-back-to-the-library's-gate-application")
     # ---- the rig
     native = None
     if base == "echo":
@@ -959,6 +1081,9 @@ def run_case(ctx):
     elif base == "symbolic":
         native = "all"
         rigdesc = "Symbolic"
+    elif base == "lean":
+        native = "all"
+        rigdesc = "Lean"
     elif base == "partial":
         key = rng.choice(sorted(G.NATIVE_SETS))
         native = G.NATIVE_SETS[key]
@@ -971,13 +1096,13 @@ def run_case(ctx):
     record_bits = rng.random() < 0.5
     allow_mp = not tracked or rng.random() < 0.5  # MP circuits only ever go to the raw runner
     # ---- circuits
-    pool = [{"n": rng.choice([0, 0, 1, 3]), "ops": []}]  # operation-free circuit (possibly with idle qubits)
+    pool = [{"n": rng.choice([0, 0, 1, 3]), "ops": []}] if not wide else W.pool(rng, base, width)  # [0]: operation-free circuit (possibly with idle qubits)
     how = None
     if fresh:
         fam, how = F.near_family(rng, rng.randint(4, 8), quantum=sim and rng.random() < 0.3)
         pool += fam
         how = ["empty"] + how
-    for _ in range(0 if fresh else rng.randint(3, 6)):
+    for _ in range(0 if fresh or wide else rng.randint(3, 6)):
         if sim and rng.random() < 0.5:
             s = G.structured_spec(rng, native if native not in ("all", "default") else frozenset(n for n in G.ALL_NAMES if n != "MP"),
                                   allow_mp=allow_mp)
@@ -989,30 +1114,40 @@ def run_case(ctx):
                         for nm, qs, p in s["ops"]]
         pool.append(s)
     ncalls = rng.randint(20, 60) if ctx.quick else rng.randint(20, 200)
+    if wide:
+        ncalls = rng.randint(10, 30) if ctx.quick else rng.randint(10, 60)
     targets = ["T", "T", "R"] if tracked else ["R"]
     calls = [_plan_call(rng, targets, pool, sim, can_fail=(base == "echo")) for _ in range(ncalls)]
     if fresh:
         calls = _with_neighbour_calls(rng, calls, how, sim)
+    if wide:
+        calls = _widen_counts(rng, calls, pool, base, tracked and record_bits, ctx.quick)
     live_idx, drop_early = (), False
     if fresh:
         live_idx = tuple(i for i in range(len(pool)) if rng.random() < 0.2)  # these stay alive for the whole history
         drop_early = rng.random() < 0.5  # drop a call's circuits before / after the next call's circuits are built
     desc = (f"{'Tracker(bits=%s) of ' % record_bits if tracked else ''}{rigdesc} circuits="
-            + " ".join(f"c{i}={G.spec_str(s)}" for i, s in enumerate(pool))
+            + " ".join(f"c{i}={W.spec_str(s)}" for i, s in enumerate(pool))
             + (f" fresh(derived={','.join(how)};live={list(live_idx)};drop={'early' if drop_early else 'late'})" if fresh else "")
             + " :: " + " ".join(_call_str(c) for c in calls))
-    ctx.describe(desc, _nontrivial(calls))
+    if wide:
+        # non-trivial: an accepted sampling request reaches a register of 9 or more qubits
+        ctx.describe(desc, any(c["expect"] == "ok" and c["n"] is not None and any(pool[i]["n"] >= 9 for i in c["cidx"]) for c in calls))
+    else:
+        ctx.describe(desc, _nontrivial(calls))
 
     # ---- build
     if base == "echo":
         runner = Echo(extra)
     elif base == "symbolic":
         runner = SymbolicSimulator(seed=seed)
+    elif base == "lean":
+        runner = W.lean_class()(seed=seed)
     elif base == "partial":
         runner = Partial(native, seed=seed)
     else:
         runner = DefaultSim(seed=seed)
-    circuits = [G.build_circuit(s) if not fresh or i in live_idx else None for i, s in enumerate(pool)]
+    circuits = [W.build_circuit(s) if not fresh or i in live_idx else None for i, s in enumerate(pool)]
     dead = {}  # fresh: address -> pool index of the last dropped circuit that lived there
     tracker = None
     path = None
@@ -1101,6 +1236,18 @@ def run_case(ctx):
                     ok = isinstance(res, list) and len(res) == len(cs)
                 ctx.check("history-outcome", ok,
                           lambda: f"step {step} {_call_str(call)} valid request: " + (repr(exc) if exc is not None else f"returned {res!r}"[:200]))
+                if exc is None and wide and call["op"] in ("single", "batch") and ok:
+                    ns_ = M.per_circuit(len(cs), call["n"])
+                    for k_, (s_, n_, m_) in enumerate(zip(specs, ns_, [res] if call["op"] == "single" else res)):
+                        bad_ = _client_view(base, s_, n_, m_)
+                        ctx.check("wide-register-result", bad_ is None,
+                                  lambda: f"step {step} {_call_str(call)} on {rigdesc}: result #{k_} for c{call['cidx'][k_]}={W.spec_str(s_)}: {bad_}"[:900])
+                        if s_["n"] >= 9:
+                            ctx.mon.note(f"wide:sampled-register-of-{s_['n'] if s_['n'] <= 17 else '18+'}-qubits")
+                        if n_ > 2 ** s_["n"] and s_["n"] >= 8:
+                            ctx.mon.note("wide:more-shots-than-basis-states-on>=8-qubits")
+                        if n_ >= 65535:
+                            ctx.mon.note("wide:>=65535-shots")
                 if exc is None:
                     flags = [G.native_flags(s, native) if sim else [] for s in specs]
                     model_r.executed(flags)
